@@ -1,643 +1,25 @@
-(* C13 on the second-generation Session model: on every connection the first HAND-OVERS of the
-   messages accepted before the connection was opened, and of those accepted while it is open, follow
-   publish() order ([c13_handed_proved], by a relational invariant between the model state and the
-   checker state); the same for the first WRITES follows from the queue discipline
-   ([c13_tx_proved] = [fifo_proved] + [c13_transfer_proved]). *)
-From PahoV Require Import Base.Prelude Codec.Mid Codec.MidProofs Session2.Model Session2.Check
-  Session2.Lemmas Session2.Inv Session2.Statements Session2.FifoProofs Session2.C13Transfer.
-From Coq Require Import Sorting.Sorted.
+(* C13 on the second-generation Session model: publish() order of the hand-overs and of the writes, per connection.
+   Operation-by-operation preservation for the two-mode operations is in LC13.v; lifted here to the model's runs for
+   histories without hard write failures (Calm.v).  The transfer from hand-overs to writes (C13Transfer.v) and the
+   FIFO discipline of the queue (FifoProofs.v) hold for arbitrary histories. *)
+From PahoV Require Import Base.Prelude Codec.Mid Codec.MidProofs Session2.Model Session2.Check Session2.Statements
+  Session2.Bridge Session2.Calm Session2.LLemmas Session2.LInv Session2.LC13 Session2.FifoProofs Session2.C13Transfer.
+From PahoV Require Session2.Legacy.
 
-(* ---------------------------------------------------------------- zin *)
-Lemma zin_In x l : zin x l = true <-> In x l.
+Theorem c13_handed_calm_proved : C13_handed_calm_stmt.
 Proof.
-  induction l as [|y l IH]; cbn [zin In]; [split; [discriminate|tauto]|].
-  rewrite orb_true_iff, IH. split; intros [H|H]; auto; left; lia.
-Qed.
-Lemma zin_app x l1 l2 : zin x (l1 ++ l2) = zin x l1 || zin x l2.
-Proof. induction l1 as [|y l1 IH]; cbn [zin app]; [reflexivity|]. rewrite IH, orb_assoc. reflexivity. Qed.
-Lemma zin_false x l : zin x l = false <-> ~ In x l.
-Proof. rewrite <- zin_In. destruct (zin x l); split; intros H; congruence. Qed.
-
-(* ---------------------------------------------------------------- sorted lists *)
-Lemma ss_app (l1 l2 : list Z) : StronglySorted Z.lt (l1 ++ l2) ->
-  StronglySorted Z.lt l1 /\ StronglySorted Z.lt l2 /\ (forall x y, In x l1 -> In y l2 -> x < y).
-Proof.
-  induction l1 as [|a l1 IH]; cbn [app]; intros H.
-  - split; [constructor|]. split; [assumption|]. intros x y [].
-  - inversion H as [|? ? Hs Hf]; subst. destruct (IH Hs) as (H1 & H2 & H3). apply Forall_app in Hf as [Hf1 Hf2].
-    split; [constructor; assumption|]. split; [assumption|].
-    intros x y [->|Hx] Hy; [exact (proj1 (Forall_forall _ _) Hf2 y Hy) | apply H3; assumption].
-Qed.
-
-Lemma ss_filter_tags (f : omsg -> bool) : forall l,
-  StronglySorted Z.lt (tags l) -> StronglySorted Z.lt (tags (filter f l)).
-Proof.
-  unfold tags. induction l as [|m l IH]; cbn [map filter]; intros H; [constructor|].
-  inversion H as [|? ? Hs Hf]; subst. destruct (f m); cbn [map]; [|apply IH; assumption].
-  constructor; [apply IH; assumption|]. apply Forall_forall. intros x Hx.
-  apply in_map_iff in Hx as (y & <- & Hy). apply filter_In in Hy as [Hy _].
-  apply (proj1 (Forall_forall _ _) Hf). apply in_map. assumption.
-Qed.
-
-(* ---------------------------------------------------------------- the checker on first hand-overs *)
-(* an unseen tag is beyond what was transmitted on this connection in its class *)
-Definition above (k : k13) (t : Z) : Prop :=
-  if t <? k3_bound k then k3_old k < t else k3_new k < t.
-
-Lemma tx_step k t : k3_ok k = true -> zin t (k3_seen k) = false -> above k t ->
-  k3_ok (k13_tx k t) = true /\ k3_next (k13_tx k t) = k3_next k /\ k3_bound (k13_tx k t) = k3_bound k /\
-  k3_seen (k13_tx k t) = k3_seen k ++ [t] /\
-  (forall u, above k u -> (t < u \/ (u < k3_bound k /\ k3_bound k <= t)) -> above (k13_tx k t) u) /\
-  (forall N, k3_new k < N -> t < N -> k3_new (k13_tx k t) < N).
-Proof.
-  intros Hok Hun Hab. unfold k13_tx, above in *. rewrite Hun.
-  destruct (t <? k3_bound k) eqn:E; cbn [k3_ok k3_next k3_bound k3_seen k3_old k3_new].
-  - split; [rewrite Hok; apply Z.ltb_lt; exact Hab|]. split; [reflexivity|]. split; [reflexivity|]. split; [reflexivity|]. split.
-    + intros u Hu Hlt. destruct (u <? k3_bound k) eqn:E2; lia.
-    + intros; lia.
-  - split; [rewrite Hok; apply Z.ltb_lt; exact Hab|]. split; [reflexivity|]. split; [reflexivity|]. split; [reflexivity|]. split.
-    + intros u Hu Hlt. destruct (u <? k3_bound k) eqn:E2; lia.
-    + intros; lia.
-Qed.
-
-Lemma tx_seen k t : zin t (k3_seen k) = true -> k13_tx k t = k.
-Proof. intros H. unfold k13_tx. rewrite H. reflexivity. Qed.
-
-Lemma tx_fold : forall ts k, StronglySorted Z.lt ts -> k3_ok k = true ->
-  Forall (fun t => zin t (k3_seen k) = false) ts -> Forall (above k) ts ->
-  k3_ok (fold_left k13_tx ts k) = true /\ k3_next (fold_left k13_tx ts k) = k3_next k /\
-  k3_bound (fold_left k13_tx ts k) = k3_bound k /\
-  k3_seen (fold_left k13_tx ts k) = k3_seen k ++ ts /\
-  (forall u, above k u -> Forall (fun t => t < u) ts -> above (fold_left k13_tx ts k) u) /\
-  (forall N, k3_new k < N -> Forall (fun t => t < N) ts -> k3_new (fold_left k13_tx ts k) < N).
-Proof.
-  induction ts as [|t ts IH]; intros k Hs Hok Hun Hab; cbn [fold_left].
-  - rewrite app_nil_r. split; [assumption|]. split; [reflexivity|]. split; [reflexivity|]. split; [reflexivity|].
-    split; intros; assumption.
-  - inversion Hs as [|? ? Hs' Hlt]; subst. inversion Hun as [|? ? Hun1 Hun']; subst.
-    inversion Hab as [|? ? Hab1 Hab']; subst.
-    destruct (tx_step k t Hok Hun1 Hab1) as (Ok1 & Nx1 & Bd1 & Sn1 & Ab1 & Nw1).
-    assert (Hun2 : Forall (fun x => zin x (k3_seen (k13_tx k t)) = false) ts).
-    { rewrite Sn1. apply Forall_forall. intros x Hx. rewrite zin_app.
-      rewrite (proj1 (Forall_forall _ _) Hun' x Hx). cbn [zin].
-      pose proof (proj1 (Forall_forall _ _) Hlt x Hx). lia. }
-    assert (Hab2 : Forall (above (k13_tx k t)) ts).
-    { apply Forall_forall. intros x Hx. apply Ab1; [exact (proj1 (Forall_forall _ _) Hab' x Hx)|].
-      left. exact (proj1 (Forall_forall _ _) Hlt x Hx). }
-    destruct (IH (k13_tx k t) Hs' Ok1 Hun2 Hab2) as (Ok2 & Nx2 & Bd2 & Sn2 & Ab2 & Nw2).
-    split; [exact Ok2|]. split; [congruence|]. split; [congruence|].
-    split; [rewrite Sn2, Sn1, <- app_assoc; reflexivity|]. split.
-    + intros u Hu Hf. inversion Hf; subst. apply Ab2; [apply Ab1; [assumption|left; assumption]|assumption].
-    + intros N HN Hf. inversion Hf; subst. apply Nw2; [apply Nw1; assumption|assumption].
-Qed.
-
-(* ---------------------------------------------------------------- the events of the loops, seen by the checker *)
-Definition hev := k13_ev handed_sel.
-
-Lemma qos_ok_q0 m : qos_okb m = true -> (o_qos m =? 0) = false.
-Proof.
-  unfold qos_okb. destruct (o_qos m =? 1) eqn:E; [intros _; lia|].
-  intros H. apply andb_true_iff in H as [H _]. lia.
-Qed.
-
-(* writes, and the completions of QoS 0 messages that come with them, are not hand-overs *)
-Lemma flush_hev cn : forall q k, fold_left hev (flush_evs cn q) k = k.
-Proof.
-  induction q as [|x q IH]; intros k; [reflexivity|]. cbn [flush_evs fold_left]. change (hev k (Tx cn (q_pkt x))) with k.
-  rewrite fold_left_app, IH. unfold written_evs. destruct (q_pkt x) as [|m qs d t| | | |]; try reflexivity.
-  destruct (qs =? 0); reflexivity.
-Qed.
-
-Lemma hand_all_hev cn can q H k : (can = true -> q = []) ->
-  fold_left hev (snd (hand_all cn can q H)) k = fold_left k13_pkt (pkts H) k.
-Proof.
-  intros Hq. destruct can.
-  - rewrite (Hq eq_refl), hand_all_can. cbn [snd]. revert k. induction H as [|x H IH]; intros k; [reflexivity|].
-    cbn [flat_map pkts map]. rewrite fold_left_app. cbn [fold_left].
-    change (hev k (Handed cn (q_pkt x))) with (k13_pkt k (q_pkt x)). rewrite flush_hev. apply IH.
-  - rewrite hand_all_blocked. cbn [snd]. revert k. induction H as [|x H IH]; intros k; [reflexivity|].
-    cbn [pkts map fold_left]. change (hev k (Handed cn (q_pkt x))) with (k13_pkt k (q_pkt x)). apply IH.
-Qed.
-
-Lemma send_hev s x k : (can_write s = true -> outq s = []) ->
-  fold_left hev (snd (send s x)) k = k13_pkt k (q_pkt x).
-Proof.
-  intros Hi. unfold send. pose proof (hand_all_hev (conn s) (can_write s) (outq s) [x] k Hi) as H.
-  cbn [hand_all] in H. destruct (pq (conn s) (can_write s) (outq s) x) as [q' ev]. cbn [snd] in *.
-  rewrite app_nil_r in H. exact H.
-Qed.
-
-Lemma pkt_pub m k : qos_okb m = true -> k13_pkt k (pub_pkt m) = k13_tx k (o_tag m).
-Proof. intros H. unfold k13_pkt, pub_pkt, ptag. rewrite (qos_ok_q0 m H). reflexivity. Qed.
-
-Lemma fold_rel_pk : forall L k, Forall (fun m => qos_okb m = true) L ->
-  fold_left k13_pkt (pkts (map rel_pk L)) k = fold_left k13_tx (tags L) k.
-Proof.
-  unfold tags. induction L as [|m L IH]; intros k H; cbn [map pkts fold_left]; [reflexivity|].
-  inversion H; subst. cbn [rel_pk q_pkt]. rewrite pkt_pub by assumption. apply IH. assumption.
-Qed.
-
-Definition pend (m : omsg) : bool := negb (is_wait m).
-
-Lemma fold_cl_pk1 m k : qos_okb m = true -> is_queued m = false ->
-  fold_left k13_pkt (pkts (cl_pk m)) k = if is_wait m then k else k13_tx k (o_tag m).
-Proof.
-  intros Hq Hnq. pose proof (qos_ok_q0 m Hq) as H0.
-  unfold cl_pk, is_wait, is_queued, qos_okb in *.
-  destruct (o_st m); try discriminate; cbn [pkts map fold_left q_pkt]; try reflexivity.
-  - unfold k13_pkt, pub_pkt, ptag. rewrite H0. reflexivity.
-  - destruct (o_qos m =? 1) eqn:E1; [discriminate|]. apply andb_true_iff in Hq as [Hq _].
-    rewrite Hq. reflexivity.
-Qed.
-
-Lemma fold_cl_pk : forall C k,
-  Forall (fun m => qos_okb m = true) C -> Forall (fun m => is_queued m = false) C ->
-  fold_left k13_pkt (pkts (flat_map cl_pk C)) k = fold_left k13_tx (tags (filter pend C)) k.
-Proof.
-  unfold tags. induction C as [|m C IH]; intros k Hq Hn; cbn [flat_map filter]; [reflexivity|].
-  inversion Hq; subst; inversion Hn; subst. unfold pkts. rewrite map_app, fold_left_app. fold (pkts (cl_pk m)). fold (pkts (flat_map cl_pk C)).
-  rewrite fold_cl_pk1 by assumption.
-  unfold pend at 1. destruct (is_wait m); cbn [negb map fold_left]; apply IH; assumption.
-Qed.
-
-(* events the order checker ignores altogether *)
-Definition hneutral (e : event) : bool :=
-  match e with
-  | Ret _ _ _ _ | SockOpened _ | Handed _ _ => false
-  | _ => true
-  end.
-Lemma hneutral_fold : forall evs k, forallb hneutral evs = true -> fold_left hev evs k = k.
-Proof.
-  induction evs as [|e evs IH]; intros k H; [reflexivity|].
-  cbn [forallb] in H. apply andb_true_iff in H as [He H]. cbn [fold_left].
-  destruct e; try discriminate; apply IH; exact H.
-Qed.
-
-(* ---------------------------------------------------------------- the relation model state / checker state *)
-(* per stored message: in a wait state = first transmission on this connection already done;
-   otherwise not yet transmitted here, beyond everything transmitted in its class, and - unless
-   it is queued behind the window - accepted before this connection was opened *)
-Definition good (k : k13) (m : omsg) : Prop :=
-  if is_wait m then zin (o_tag m) (k3_seen k) = true
-  else zin (o_tag m) (k3_seen k) = false /\ above k (o_tag m) /\
-       (is_queued m = false -> o_tag m < k3_bound k).
-
-Record RS (s : sess) (k : k13) : Prop := mkRS {
-  rs_bound : k3_bound k <= ntag s;
-  rs_seen : forall t, zin t (k3_seen k) = true -> t < ntag s;
-  rs_new : k3_new k < ntag s;
-  rs_good : Forall (good k) (out s)
-}.
-
-Definition R (s : sess) (k : k13) : Prop :=
-  k3_ok k = true /\ k3_next k = ntag s /\ (sock s = true -> RS s k).
-
-Lemma good_ext k k' m :
-  k3_bound k' = k3_bound k -> k3_old k' = k3_old k -> k3_new k' = k3_new k -> k3_seen k' = k3_seen k ->
-  good k m -> good k' m.
-Proof. unfold good, above. intros -> -> -> ->. tauto. Qed.
-
-Lemma good_keep k k' ts (P : Z -> Prop) m :
-  k3_bound k' = k3_bound k -> k3_seen k' = k3_seen k ++ ts ->
-  (forall u, above k u -> P u -> above k' u) ->
-  good k m -> (is_wait m = false -> ~ In (o_tag m) ts /\ P (o_tag m)) -> good k' m.
-Proof.
-  unfold good. intros Hb Hs Ha Hg Hc. rewrite Hs, zin_app. destruct (is_wait m).
-  - rewrite Hg. reflexivity.
-  - destruct Hg as (H1 & H2 & H3). destruct (Hc eq_refl) as [H4 H5]. split; [|split].
-    + rewrite H1. apply zin_false in H4. rewrite H4. reflexivity.
-    + apply Ha; assumption.
-    + rewrite Hb. assumption.
-Qed.
-
-Lemma good_sent k m : is_wait m = true -> zin (o_tag m) (k3_seen k) = true -> good k m.
-Proof. unfold good. intros -> H. exact H. Qed.
-
-Lemma not_wait_of_queued m : is_queued m = true -> is_wait m = false.
-Proof. destruct (is_wait m) eqn:E; [|reflexivity]. apply wait_nq in E. congruence. Qed.
-
-Lemma is_wait_wait_of mid q d t : is_wait (mkO mid q (wait_of q) d t) = true.
-Proof. unfold is_wait, wait_of. cbn [o_st]. destruct (q =? 1); reflexivity. Qed.
-
-Lemma reset_out_notwait c cl : forall l infl,
-  Forall (fun m => is_wait m = false) (fst (reset_out_list c cl infl l)).
-Proof.
-  induction l as [|m l IH]; intros infl; cbn [reset_out_list]; [constructor|].
-  destruct (window_free c infl).
-  - specialize (IH (infl + 1)). destruct (reset_out_list c cl (infl + 1) l) as [r n]. cbn [fst] in *.
-    constructor; [apply reset1_notwait | exact IH].
-  - specialize (IH infl). destruct (reset_out_list c cl infl l) as [r n]. cbn [fst] in *.
-    constructor; [reflexivity | exact IH].
-Qed.
-
-Lemma update_mid_Forall (P : omsg -> Prop) mid f : forall l m,
-  find_mid mid l = Some m -> Forall P l -> P (f m) -> Forall P (update_mid mid f l).
-Proof.
-  induction l as [|x l IH]; intros m Hf Hl Hp; cbn [find_mid update_mid] in *; [discriminate|].
-  inversion Hl; subst. destruct (o_mid x =? mid).
-  - inversion Hf; subst. constructor; assumption.
-  - constructor; [assumption|]. eapply IH; eassumption.
-Qed.
-
-(* ---------------------------------------------------------------- preservation, op by op *)
-Section Preserve13.
-Variable c : cfg.
-Hypothesis Hcfg : cfg_ok c = true.
-
-Lemma R_ext s s' k : out s' = out s -> ntag s' = ntag s -> sock s' = sock s -> R s k -> R s' k.
-Proof.
-  intros E1 E2 E3 (Hok & Hnx & Hrs). split; [exact Hok|]. split; [rewrite E2; exact Hnx|]. rewrite E3. intros Hs.
-  destruct (Hrs Hs) as [Hb Hse Hn Hg]. constructor; rewrite ?E1, ?E2; assumption.
-Qed.
-
-(* operations that leave the socket closed, or close it: only [ok] and [next] matter *)
-Lemma R_closed s' k' : k3_ok k' = true -> k3_next k' = ntag s' -> sock s' = false -> R s' k'.
-Proof. intros H1 H2 H3. split; [assumption|]. split; [assumption|]. intros H. congruence. Qed.
-
-(* only the tag counter moves *)
-Lemma R_ret s s' k mid q rc : R s k -> out s' = out s -> sock s' = sock s -> ntag s' = ntag s + 1 ->
-  R s' (fold_left hev [Ret (ntag s) mid q rc] k).
-Proof.
-  intros (Hok & Hnx & Hrs) E1 E2 E3. cbn [fold_left hev k13_ev]. split; [exact Hok|]. split; [cbn; lia|].
-  rewrite E2. intros Hs. destruct (Hrs Hs) as [Hb Hse Hn Hg].
-  constructor; rewrite ?E1, ?E3; cbn [k3_bound k3_seen k3_new];
-    [lia | intros t Ht; specialize (Hse t Ht); lia | lia |].
-  eapply Forall_impl; [|exact Hg]. intros a Ha.
-  eapply good_ext; [| | | |exact Ha]; reflexivity.
-Qed.
-
-Lemma R_publish s k q : Inv c s -> conf_op c s (OPublish q) = true -> R s k ->
-  R (fst (do_publish c s q)) (fold_left hev (snd (do_publish c s q)) k).
-Proof.
-  intros I Hq HR. cbn [conf_op] in Hq. pose proof (max_nonneg c Hcfg) as Hmax. pose proof (inv_qidle _ _ I) as Hi.
-  unfold do_publish. cbv zeta. destruct (q =? 0) eqn:Eq0.
-  { destruct (sock s) eqn:Hs; [|cbn [fst snd]; apply (R_ret s); [exact HR | reflexivity | cbn; congruence | reflexivity]].
-    set (s1 := mkS _ _ _ _ _ _ _ _ _ _ _). set (x := mkQ _ _).
-    assert (Hi1 : can_write s1 = true -> outq s1 = []).
-    { unfold can_write in *. cbn [sock blocked outq s1]. rewrite Hs in Hi. exact Hi. }
-    pose proof (send_hev s1 x k Hi1) as E. pose proof (send_fst s1 x) as Ef.
-    destruct (send s1 x) as [s2 ev]. cbn [fst snd] in *. rewrite fold_left_app, E.
-    change (k13_pkt k (q_pkt x)) with k.
-    apply (R_ret s); [exact HR | rewrite Ef; reflexivity | rewrite Ef; cbn; congruence | rewrite Ef; reflexivity]. }
-  destruct ((c_maxq c >? 0) && (Z.of_nat (length (out s)) >=? c_maxq c));
-    [cbn [fst snd]; apply (R_ret s); [exact HR | reflexivity | reflexivity | reflexivity]|].
-  destruct (has_mid (mid_next (last_mid s)) (out s)) eqn:Hhas;
-    [cbn [fst snd]; apply (R_ret s); [exact HR | reflexivity | reflexivity | reflexivity]|].
-  destruct HR as (Hok & Hnx & Hrs).
-  destruct (inv_shape _ _ I) as (C & U & Q & Sh). pose proof (inv_tags _ _ I) as Htg.
-  destruct (window_free c (inflight s)) eqn:W.
-  - destruct (sock s) eqn:Hs.
-    + (* handed over at once: the largest tag so far, a new message *)
-      assert (Q = []) by (eapply window_free_Q_nil; eassumption). subst Q.
-      assert (U = []) by (apply (sh_sockU _ _ _ _ _ Sh); assumption). subst U.
-      destruct (Hrs eq_refl) as [Hb Hse Hn Hg].
-      set (s1 := with_out _ _ _). set (x := mkQ _ _).
-      assert (Hi1 : can_write s1 = true -> outq s1 = []).
-      { unfold can_write in *. cbn [sock blocked outq s1 with_out]. rewrite Hs in Hi. exact Hi. }
-      pose proof (send_hev s1 x k Hi1) as E. pose proof (send_fst s1 x) as Ef.
-      destruct (send s1 x) as [s2 ev]. cbn [fst snd] in *. rewrite fold_left_app, E.
-      assert (Ex : k13_pkt k (q_pkt x) = k13_tx k (ntag s)).
-      { unfold k13_pkt, x, ptag. cbn [q_pkt]. rewrite Eq0. reflexivity. }
-      rewrite Ex. cbn [fold_left hev k13_ev].
-      assert (Hun : zin (ntag s) (k3_seen k) = false).
-      { destruct (zin (ntag s) (k3_seen k)) eqn:E1; [|reflexivity]. apply Hse in E1. lia. }
-      assert (Hab : above k (ntag s)).
-      { unfold above. replace (ntag s <? k3_bound k) with false by lia. exact Hn. }
-      destruct (tx_step k (ntag s) Hok Hun Hab) as (Ok1 & Nx1 & Bd1 & Sn1 & Ab1 & Nw1).
-      split; [exact Ok1|]. split; [rewrite Ef; reflexivity|]. intros _. rewrite Ef.
-      constructor; cbn [k3_bound k3_seen k3_new k3_old out ntag with_out with_q s1].
-      * rewrite Bd1. lia.
-      * intros t Ht. rewrite Sn1, zin_app in Ht. cbn [zin] in Ht.
-        destruct (zin t (k3_seen k)) eqn:E1; [apply Hse in E1; lia | lia].
-      * apply Nw1; lia.
-      * apply Forall_app. split.
-        -- apply Forall_forall. intros m Hm.
-           apply (good_ext (k13_tx k (ntag s))); try reflexivity.
-           pose proof (proj1 (Forall_forall _ _) Hg m Hm) as Gm.
-           pose proof (proj1 (Forall_forall _ _) Htg m Hm) as Tm. cbn beta in Tm.
-           eapply (good_keep k _ [ntag s] (fun u => u < k3_bound k /\ k3_bound k <= ntag s));
-             [exact Bd1 | exact Sn1 | | exact Gm | ].
-           ++ intros u Hu Hp. apply Ab1; [exact Hu | right; exact Hp].
-           ++ intros Hw. split; [cbn [In]; lia|]. split; [|lia].
-              unfold good in Gm. rewrite Hw in Gm. destruct Gm as (_ & _ & G3). apply G3.
-              rewrite (sh_out _ _ _ _ _ Sh), app_nil_r in Hm. cbn [app] in Hm.
-              exact (proj1 (Forall_forall _ _) (sh_C _ _ _ _ _ Sh) m Hm).
-        -- constructor; [|constructor]. apply good_sent; [apply is_wait_wait_of|].
-           cbn [o_tag k3_seen]. rewrite Sn1, zin_app. cbn [zin]. lia.
-    + (* offline *)
-      cbn [fst snd fold_left hev k13_ev]. apply R_closed; [exact Hok | reflexivity | reflexivity].
-  - (* queued behind the window *)
-    cbn [fst snd fold_left hev k13_ev]. split; [exact Hok|]. split; [reflexivity|].
-    cbn [sock with_out]. intros Hs. destruct (Hrs Hs) as [Hb Hse Hn Hg].
-    constructor; cbn [k3_bound k3_seen k3_new out ntag with_out];
-      [lia | intros t Ht; specialize (Hse t Ht); lia | lia |].
-    { apply Forall_app. split.
-      * eapply Forall_impl; [|exact Hg]. intros a Ha. eapply good_ext; [| | | |exact Ha]; reflexivity.
-      * constructor; [|constructor]. unfold good, above.
-        cbn [is_wait is_queued o_st o_tag k3_seen k3_bound k3_new k3_old].
-        split; [|split].
-        -- destruct (zin (ntag s) (k3_seen k)) eqn:E; [|reflexivity]. apply Hse in E. lia.
-        -- replace (ntag s <? k3_bound k) with false by lia. exact Hn.
-        -- discriminate. }
-Qed.
-
-Lemma lost_hneutral q : forallb hneutral (flat_map lost_evs q) = true.
-Proof.
-  induction q as [|x q IH]; [reflexivity|]. cbn [flat_map]. rewrite forallb_app, IH, andb_true_r.
-  unfold lost_evs. destruct (q_pkt x) as [|m qs d t| | | |]; try reflexivity.
-  destruct ((qs =? 0) && q_info x); reflexivity.
-Qed.
-
-Lemma R_reconnect s k ok : Inv c s -> R s k ->
-  R (fst (do_reconnect c s ok)) (fold_left hev (snd (do_reconnect c s ok)) k).
-Proof.
-  intros I (Hok & Hnx & _).
-  pose proof (inv_reconnect c Hcfg s ok I) as I'.
-  pose proof (reset_out_notwait c (clean_now c s) (out s) 0) as Hnw.
-  unfold do_reconnect in *. destruct (reset_out_list c (clean_now c s) 0 (out s)) as [o n]. cbn [fst] in Hnw.
-  destruct ok; cbn [fst snd] in *.
-  - change (Reconn :: flat_map lost_evs (outq s) ++ [SockOpened (conn s + 1); Handed (conn s + 1) PConnect; Tx (conn s + 1) PConnect])
-      with ((Reconn :: flat_map lost_evs (outq s)) ++ [SockOpened (conn s + 1); Handed (conn s + 1) PConnect; Tx (conn s + 1) PConnect]).
-    rewrite fold_left_app, (hneutral_fold (Reconn :: _)) by (cbn [forallb hneutral andb]; apply lost_hneutral).
-    cbn [fold_left hev k13_ev handed_sel k13_pkt ptag].
-    split; [exact Hok|]. split; [exact Hnx|]. intros _.
-    pose proof (inv_tags _ _ I') as Htg. pose proof (inv_ntag _ _ I') as Hnt. cbn [out ntag] in Htg, Hnt.
-    constructor; cbn [k3_bound k3_seen k3_new out ntag].
-    + lia.
-    + intros t Ht. cbn [zin] in Ht. discriminate.
-    + lia.
-    + apply Forall_forall. intros m Hm.
-      pose proof (proj1 (Forall_forall _ _) Hnw m Hm) as Hw. cbn beta in Hw.
-      pose proof (proj1 (Forall_forall _ _) Htg m Hm) as Tm. cbn beta in Tm.
-      unfold good, above. rewrite Hw. cbn [k3_bound k3_seen k3_new k3_old zin].
-      split; [reflexivity|]. split; [|intros _; lia].
-      replace (o_tag m <? k3_next k) with true by lia. lia.
-  - change (Reconn :: flat_map lost_evs (outq s) ++ [Raised]) with ((Reconn :: flat_map lost_evs (outq s)) ++ [Raised]).
-    rewrite hneutral_fold by (rewrite forallb_app; cbn [forallb hneutral andb]; rewrite lost_hneutral; reflexivity).
-    apply R_closed; [exact Hok | exact Hnx | reflexivity].
-Qed.
-
-Lemma R_connlost s k : R s k ->
-  R (fst (step c s OConnLost)) (fold_left hev (snd (step c s OConnLost)) k).
-Proof.
-  intros HR. cbn [step]. destruct (sock s) eqn:Hs; cbn [fst snd fold_left hev k13_ev handed_sel]; [|exact HR].
-  destruct HR as (Hok & Hnx & _). apply R_closed; [exact Hok | exact Hnx | reflexivity].
-Qed.
-
-(* a reply (or CONNECT): not a packet the order checker looks at *)
-Lemma R_send_plain s k x : (can_write s = true -> outq s = []) -> ptag (q_pkt x) = None -> R s k ->
-  R (fst (send s x)) (fold_left hev (snd (send s x)) k).
-Proof.
-  intros Hi Hx HR. rewrite (send_hev s x k Hi). unfold k13_pkt. rewrite Hx.
-  apply (R_ext s); [rewrite send_fst; reflexivity | rewrite send_fst; reflexivity | rewrite send_fst; reflexivity | exact HR].
-Qed.
-
-Lemma R_ack s k mid q : Inv c s -> R s k ->
-  R (fst (do_ack c s mid q)) (fold_left hev (snd (do_ack c s mid q)) k).
-Proof.
-  intros I HR. unfold do_ack. destruct (c_manual c); [|exact HR].
-  destruct (q =? 1); [apply R_send_plain; [exact (inv_qidle _ _ I) | reflexivity | exact HR]|].
-  destruct (q =? 2); [apply R_send_plain; [exact (inv_qidle _ _ I) | reflexivity | exact HR] | exact HR].
-Qed.
-
-Lemma R_on_publish s k m : Inv c s -> sock s = true -> cack s = true ->
-  In m (out s) -> is_wait m = true -> R s k ->
-  R (fst (do_on_publish c s m)) (fold_left hev (snd (do_on_publish c s m)) k).
-Proof.
-  intros I Hs Hck Hin Hw (Hok & Hnx & Hrs).
-  destruct (on_publish_char c Hcfg s m (inv_m _ _ I) Hs Hck Hin Hw)
-    as (C1 & C2 & Q & j & n & So & Se & SQ & _ & _ & _ & _ & E).
-  rewrite E. cbn [fst snd fold_left]. clear E.
-  change (hev k (CbPublish (o_mid m) (o_tag m))) with k. change (hev k (Published (o_tag m))) with k.
-  rewrite (hand_all_hev _ _ _ _ _ (inv_qidle _ _ I)).
-  destruct (Hrs Hs) as [Hb Hse Hn Hg].
-  pose proof (inv_sorted _ _ I) as Hso. pose proof (inv_tags _ _ I) as Htg. pose proof (inv_qos _ _ I) as Hqo.
-  rewrite So in Hso, Htg, Hqo, Hg.
-  apply Forall_app in Htg as [_ TQ]. apply Forall_app in Hqo as [_ QQ]. apply Forall_app in Hg as [GC GQ].
-  apply Forall_remove in GC.
-  rewrite tags_app in Hso. apply ss_app in Hso as (_ & SsQ & _).
-  rewrite <- (firstn_skipn j Q), tags_app in SsQ. apply ss_app in SsQ as (Ss1 & _ & Hlt).
-  set (L := firstn j Q) in *. set (T := skipn j Q) in *.
-  assert (HL : forall x, In x L -> In x Q) by (intros x Hx; rewrite <- (firstn_skipn j Q); apply in_or_app; left; exact Hx).
-  assert (HT : forall x, In x T -> In x Q) by (intros x Hx; rewrite <- (firstn_skipn j Q); apply in_or_app; right; exact Hx).
-  rewrite fold_rel_pk by (apply Forall_forall; intros x Hx; exact (proj1 (Forall_forall _ _) QQ x (HL x Hx))).
-  assert (Hnwq : forall x, In x Q -> zin (o_tag x) (k3_seen k) = false /\ above k (o_tag x)).
-  { intros x Hx. pose proof (proj1 (Forall_forall _ _) GQ x Hx) as G. unfold good in G.
-    rewrite (not_wait_of_queued x (proj1 (Forall_forall _ _) SQ x Hx)) in G. tauto. }
-  assert (Hun : Forall (fun t => zin t (k3_seen k) = false) (tags L)).
-  { unfold tags. apply Forall_map. apply Forall_forall. intros x Hx. apply (Hnwq x (HL x Hx)). }
-  assert (Hab : Forall (above k) (tags L)).
-  { unfold tags. apply Forall_map. apply Forall_forall. intros x Hx. apply (Hnwq x (HL x Hx)). }
-  destruct (tx_fold (tags L) k Ss1 Hok Hun Hab) as (Ok1 & Nx1 & Bd1 & Sn1 & Ab1 & Nw1).
-  assert (HtL : Forall (fun t => t < ntag s) (tags L)).
-  { unfold tags. apply Forall_map. apply Forall_forall. intros x Hx.
-    pose proof (proj1 (Forall_forall _ _) TQ x (HL x Hx)) as H. cbn beta in H. lia. }
-  split; [exact Ok1|]. split; [rewrite Nx1; exact Hnx|]. intros _.
-  constructor; cbn [out ntag with_out with_q].
-  - rewrite Bd1. exact Hb.
-  - intros t Ht. rewrite Sn1, zin_app in Ht. destruct (zin t (k3_seen k)) eqn:E1; [apply Hse; exact E1|].
-    cbn [orb] in Ht. apply zin_In in Ht. exact (proj1 (Forall_forall _ _) HtL t Ht).
-  - apply Nw1; assumption.
-  - apply Forall_app. split; [|apply Forall_app; split].
-    + apply Forall_forall. intros x Hx.
-      pose proof (proj1 (Forall_forall _ _) Se x Hx) as Wx. cbn beta in Wx.
-      pose proof (proj1 (Forall_forall _ _) GC x Hx) as G. unfold good in G. rewrite Wx in G.
-      apply good_sent; [exact Wx|]. rewrite Sn1, zin_app, G. reflexivity.
-    + apply Forall_map. apply Forall_forall. intros x Hx. apply good_sent; [apply rel1_wait|].
-      rewrite rel1_tag, Sn1, zin_app. replace (zin (o_tag x) (tags L)) with true; [apply orb_true_r|].
-      symmetry. apply zin_In. apply in_map. exact Hx.
-    + apply Forall_forall. intros x Hx.
-      assert (Hlx : Forall (fun t => t < o_tag x) (tags L)).
-      { apply Forall_forall. intros t Ht. apply Hlt; [exact Ht|]. apply in_map. exact Hx. }
-      eapply (good_keep k _ (tags L) (fun u => Forall (fun t => t < u) (tags L)));
-        [exact Bd1 | exact Sn1 | exact Ab1 | exact (proj1 (Forall_forall _ _) GQ x (HT x Hx)) |].
-      intros _. split; [|exact Hlx]. intros Hi.
-      pose proof (proj1 (Forall_forall _ _) Hlx _ Hi) as Hc. cbn beta in Hc. lia.
-Qed.
-
-(* the accepting CONNACK: the stored messages not yet handed to this connection go out in list order *)
-Lemma R_connack s k rc r : Inv c s -> sock s = true -> R s k ->
-  R (fst (do_rx c s (IConnack rc) r)) (fold_left hev (snd (do_rx c s (IConnack rc) r)) k).
-Proof.
-  intros I Hs (Hok & Hnx & Hrs).
-  destruct (rc =? 0) eqn:Erc.
-  2:{ unfold do_rx. rewrite Hs. cbn [negb]. rewrite Erc. cbn [fst snd fold_left hev k13_ev handed_sel].
-      apply R_closed; [exact Hok | exact Hnx | reflexivity]. }
-  assert (rc = 0) by lia. subst rc.
-  destruct (connack_char c s r I Hs) as (C & Q & So & Sh & E). rewrite E. cbn [fst snd fold_left]. clear E.
-  change (hev k (Inp (IConnack 0))) with k. rewrite (hand_all_hev _ _ _ _ _ (inv_qidle _ _ I)).
-  destruct (Hrs Hs) as [Hb Hse Hn Hg].
-  pose proof (inv_sorted _ _ I) as Hso. pose proof (inv_tags _ _ I) as Htg. pose proof (inv_qos _ _ I) as Hqo.
-  destruct Sh as [_ Si SC SU SQ Sm Sf Ss Se].
-  rewrite So in Hso, Htg, Hqo, Hg.
-  apply Forall_app in Htg as [TC TQ]. apply Forall_app in Hqo as [QC QQ]. apply Forall_app in Hg as [GC GQ].
-  rewrite tags_app in Hso. apply ss_app in Hso as (SsC & _ & Hlt).
-  rewrite (fold_cl_pk C k QC SC).
-  set (P := filter pend C) in *.
-  assert (HP : forall x, In x P -> In x C /\ is_wait x = false).
-  { intros x Hx. apply filter_In in Hx as [H1 H2]. split; [exact H1|]. unfold pend in H2.
-    destruct (is_wait x); [discriminate|reflexivity]. }
-  assert (Hnw : forall x, In x P -> zin (o_tag x) (k3_seen k) = false /\ above k (o_tag x)).
-  { intros x Hx. destruct (HP x Hx) as [H1 H2].
-    pose proof (proj1 (Forall_forall _ _) GC x H1) as G. unfold good in G. rewrite H2 in G. tauto. }
-  assert (Hun : Forall (fun t => zin t (k3_seen k) = false) (tags P)).
-  { unfold tags. apply Forall_map. apply Forall_forall. intros x Hx. apply (Hnw x Hx). }
-  assert (Hab : Forall (above k) (tags P)).
-  { unfold tags. apply Forall_map. apply Forall_forall. intros x Hx. apply (Hnw x Hx). }
-  pose proof (ss_filter_tags pend C SsC) as SsP. fold P in SsP.
-  destruct (tx_fold (tags P) k SsP Hok Hun Hab) as (Ok1 & Nx1 & Bd1 & Sn1 & Ab1 & Nw1).
-  assert (HtP : Forall (fun t => t < ntag s) (tags P)).
-  { unfold tags. apply Forall_map. apply Forall_forall. intros x Hx.
-    pose proof (proj1 (Forall_forall _ _) TC x (proj1 (HP x Hx))) as H. cbn beta in H. lia. }
-  split; [exact Ok1|]. split; [rewrite Nx1; exact Hnx|]. intros _.
-  constructor; cbn [out ntag with_out with_q connack_s1].
-  - rewrite Bd1. exact Hb.
-  - intros t Ht. rewrite Sn1, zin_app in Ht. destruct (zin t (k3_seen k)) eqn:E1; [apply Hse; exact E1|].
-    cbn [orb] in Ht. apply zin_In in Ht. exact (proj1 (Forall_forall _ _) HtP t Ht).
-  - apply Nw1; assumption.
-  - apply Forall_app. split.
-    + apply Forall_map. apply Forall_forall. intros x Hx.
-      apply good_sent.
-      * apply cl1_wait; [exact (proj1 (Forall_forall _ _) QC x Hx) | exact (proj1 (Forall_forall _ _) SC x Hx)].
-      * rewrite cl1_tag, Sn1, zin_app. destruct (is_wait x) eqn:Wx.
-        -- pose proof (proj1 (Forall_forall _ _) GC x Hx) as G. unfold good in G. rewrite Wx in G.
-           rewrite G. reflexivity.
-        -- replace (zin (o_tag x) (tags P)) with true; [apply orb_true_r|].
-           symmetry. apply zin_In. apply in_map. apply filter_In. split; [exact Hx|].
-           unfold pend. rewrite Wx. reflexivity.
-    + apply Forall_forall. intros x Hx.
-      assert (Hlx : Forall (fun t => t < o_tag x) (tags P)).
-      { apply Forall_forall. intros t Ht. apply Hlt; [|apply in_map; exact Hx].
-        unfold tags in Ht. apply in_map_iff in Ht as (y & <- & Hy). apply in_map. exact (proj1 (HP y Hy)). }
-      eapply (good_keep k _ (tags P) (fun u => Forall (fun t => t < u) (tags P)));
-        [exact Bd1 | exact Sn1 | exact Ab1 | exact (proj1 (Forall_forall _ _) GQ x Hx) |].
-      intros _. split; [|exact Hlx]. intros Hi.
-      pose proof (proj1 (Forall_forall _ _) Hlx _ Hi) as Hc. cbn beta in Hc. lia.
-Qed.
-
-Lemma R_with_inm s i k : R s k -> R (with_inm s i) k.
-Proof. apply R_ext; reflexivity. Qed.
-
-Lemma R_rx s k p r : Inv c s -> conf_op c s (ORx p r) = true -> R s k ->
-  R (fst (do_rx c s p r)) (fold_left hev (snd (do_rx c s p r)) k).
-Proof.
-  intros I Hconf HR. cbn [conf_op] in Hconf. pose proof (inv_qidle _ _ I) as Hi.
-  destruct (sock s) eqn:Hs.
-  2:{ unfold do_rx. rewrite Hs. cbn [negb fst snd fold_left]. exact HR. }
-  cbn [negb] in Hconf.
-  assert (Hreply : forall s1 x pre, out s1 = out s -> ntag s1 = ntag s -> sock s1 = sock s ->
-            outq s1 = outq s -> can_write s1 = can_write s -> ptag (q_pkt x) = None -> forallb hneutral pre = true ->
-            R (fst (let (s2, ev2) := send s1 x in (s2, pre ++ ev2)))
-              (fold_left hev (snd (let (s2, ev2) := send s1 x in (s2, pre ++ ev2))) k)).
-  { intros s1 x pre E1 E2 E3 E4 E5 Hx Hpre.
-    assert (Hi1 : can_write s1 = true -> outq s1 = []) by (rewrite E4, E5; exact Hi).
-    assert (HR1 : R s1 k) by (apply (R_ext s); assumption).
-    pose proof (R_send_plain s1 k x Hi1 Hx HR1) as H.
-    destruct (send s1 x) as [s2 ev]. cbn [fst snd] in *. rewrite fold_left_app, (hneutral_fold pre k Hpre). exact H. }
-  destruct p as [rc|mid|mid|mid|mid|q mid tag].
-  - apply R_connack; assumption.
-  - (* PUBACK *)
-    unfold do_rx. rewrite Hs. cbn [negb].
-    destruct (find_mid mid (out s)) as [m|] eqn:Ef; [|cbn [fst snd fold_left hev k13_ev handed_sel]; exact HR].
-    pose proof (find_mid_In _ _ _ Ef) as [Hin Hmid].
-    apply andb_true_iff in Hconf as [Hck Hconf]. apply andb_true_iff in Hconf as [Hconf _].
-    apply andb_true_iff in Hconf as [Hq Hst].
-    assert (Hw : is_wait m = true) by (unfold is_wait; destruct (o_st m); try reflexivity; discriminate).
-    pose proof (R_on_publish s k m I Hs Hck Hin Hw HR) as H.
-    destruct (do_on_publish c s m) as [s' ev]. cbn [fst snd fold_left hev k13_ev handed_sel] in *. exact H.
-  - (* PUBREC *)
-    unfold do_rx. rewrite Hs. cbn [negb].
-    destruct (find_mid mid (out s)) as [m|] eqn:Ef; [|cbn [fst snd fold_left hev k13_ev handed_sel]; exact HR].
-    pose proof (find_mid_In _ _ _ Ef) as [Hin Hmid].
-    apply andb_true_iff in Hconf as [Hck Hconf]. apply andb_true_iff in Hconf as [Hq Hst].
-    assert (Hw : is_wait m = true) by (unfold is_wait; destruct (o_st m); try reflexivity; discriminate).
-    destruct HR as (Hok & Hnx & Hrs). destruct (Hrs Hs) as [Hb Hse Hn Hg].
-    pose proof (proj1 (Forall_forall _ _) Hg m Hin) as Gm. unfold good in Gm. rewrite Hw in Gm.
-    set (s1 := with_out s _ _). set (x := mkQ _ _).
-    pose proof (send_hev s1 x k Hi) as E. pose proof (send_fst s1 x) as Efs.
-    destruct (send s1 x) as [s2 ev]. cbn [fst snd fold_left] in *. change (hev k (Inp (IPubrec mid))) with k. rewrite E.
-    change (k13_pkt k (q_pkt x)) with (k13_tx k (o_tag m)). rewrite (tx_seen k (o_tag m) Gm).
-    split; [exact Hok|]. split; [rewrite Efs; exact Hnx|]. intros _. rewrite Efs.
-    constructor; cbn [out ntag with_out with_q s1]; try assumption.
-    eapply update_mid_Forall; [exact Ef | exact Hg |].
-    apply good_sent; [reflexivity | exact Gm].
-  - (* PUBCOMP *)
-    unfold do_rx. rewrite Hs. cbn [negb].
-    destruct (find_mid mid (out s)) as [m|] eqn:Ef; [|cbn [fst snd fold_left hev k13_ev handed_sel]; exact HR].
-    pose proof (find_mid_In _ _ _ Ef) as [Hin Hmid].
-    apply andb_true_iff in Hconf as [Hck Hconf]. apply andb_true_iff in Hconf as [Hconf _].
-    apply andb_true_iff in Hconf as [Hq Hst].
-    assert (Hw : is_wait m = true) by (unfold is_wait; destruct (o_st m); try reflexivity; discriminate).
-    pose proof (R_on_publish s k m I Hs Hck Hin Hw HR) as H.
-    destruct (do_on_publish c s m) as [s' ev]. cbn [fst snd fold_left hev k13_ev handed_sel] in *. exact H.
-  - (* PUBREL: inbound flow, nothing the checker looks at *)
-    unfold do_rx, deliver. rewrite Hs. cbn [negb].
-    destruct (in_find mid (inm s)) as [tag|].
-    + destruct (r && negb (c_suppress c)); [|destruct (c_manual c)];
-        try (cbn [fst snd fold_left hev k13_ev handed_sel app]; apply R_with_inm; exact HR).
-      apply (Hreply _ _ [Inp (IPubrel mid); CbMessage mid 2 tag]); reflexivity.
-    + destruct (c_manual c); [cbn [fst snd fold_left hev k13_ev handed_sel]; exact HR|].
-      apply (Hreply _ _ [Inp (IPubrel mid)]); reflexivity.
-  - (* PUBLISH *)
-    unfold do_rx, deliver. rewrite Hs. cbn [negb].
-    destruct (q =? 0).
-    + destruct (r && negb (c_suppress c)); cbn [fst snd fold_left hev k13_ev handed_sel]; exact HR.
-    + destruct (q =? 1).
-      * destruct (r && negb (c_suppress c)); [|destruct (c_manual c)];
-          try (cbn [fst snd fold_left hev k13_ev handed_sel app]; exact HR).
-        apply (Hreply _ _ [Inp (IPublish q mid tag); CbMessage mid 1 tag]); reflexivity.
-      * pose proof (Hreply s (mkQ (PPubrec mid) false) [Inp (IPublish q mid tag)]
-                      eq_refl eq_refl eq_refl eq_refl eq_refl eq_refl eq_refl) as H.
-        destruct (send s (mkQ (PPubrec mid) false)) as [s2 ev2]. cbn [fst snd] in *.
-        apply R_with_inm. exact H.
-Qed.
-
-Lemma R_block s k b : Inv c s -> R s k -> R (fst (do_block s b)) (fold_left hev (snd (do_block s b)) k).
-Proof.
-  intros I HR. unfold do_block. destruct (sock s); [|exact HR]. destruct b; cbn [fst snd lw].
-  - cbn [fold_left hev k13_ev handed_sel]. apply (R_ext s); try reflexivity. exact HR.
-  - cbn [fold_left]. change (hev k (Blk false)) with k. rewrite flush_hev. apply (R_ext s); try reflexivity. exact HR.
-Qed.
-
-Theorem R_step s k o : Inv c s -> conf_op c s o = true -> R s k ->
-  R (fst (step c s o)) (fold_left hev (snd (step c s o)) k).
-Proof.
-  intros I Hc HR. destruct o as [q|ok| |p r|mid q|b]; cbn [step].
-  - apply R_publish; assumption.
-  - apply R_reconnect; assumption.
-  - apply (R_connlost s k HR).
-  - apply R_rx; assumption.
-  - apply R_ack; assumption.
-  - apply R_block; assumption.
-Qed.
-
-Lemma R_init : R (init c) k13_init.
-Proof. apply R_closed; reflexivity. Qed.
-
-Lemma c13_from : forall ops s k, Inv c s -> R s k -> conforming_from c s ops = true ->
-  k3_ok (fold_left (fun k evs => fold_left hev evs k) (map snd (run_steps c s ops)) k) = true.
-Proof.
-  induction ops as [|o ops IH]; intros s k I HR Hc; cbn [run_steps conforming_from] in *.
-  - cbn [map fold_left]. exact (proj1 HR).
-  - apply andb_true_iff in Hc as [Hc1 Hc2].
-    pose proof (inv_step c Hcfg s o I Hc1) as I'. pose proof (R_step s k o I Hc1 HR) as HR'.
-    destruct (step c s o) as [s' ev]. cbn [fst snd map fold_left] in *.
-    apply IH; assumption.
-Qed.
-
-End Preserve13.
-
-Theorem c13_handed_proved : C13_handed_stmt.
-Proof.
-  intros c ops Hcfg Hconf. unfold c13_handed_ok, c13_gen_ok, optrace.
-  apply (c13_from c Hcfg ops (init c) k13_init); [apply inv_init; exact Hcfg | apply R_init | exact Hconf].
+  intros c ops Hcfg Hc Hn. unfold c13_handed_ok, c13_gen_ok, optrace.
+  destruct (lift_calm c (LInv.Inv c) (LInv.inv_step c Hcfg) k13 (fun k evs => fold_left hev evs k) (LC13.R)
+              (fun s o k => LC13.R_step c Hcfg s k o) ops (init c) k13_init (LInv.inv_init c) eq_refl Hn Hc) as (s' & H & _).
+  - apply R_closed; reflexivity.
+  - exact H.
 Qed.
 
 (* the writes: the queue is a FIFO, so they inherit the order of the hand-overs *)
-Theorem c13_tx_proved : C13_tx_stmt.
+Theorem c13_tx_calm_proved : C13_tx_calm_stmt.
 Proof.
-  intros c ops Hcfg Hconf. apply c13_transfer_proved; [apply fifo_proved | apply c13_handed_proved; assumption].
+  intros c ops Hcfg Hc Hn. apply c13_transfer_proved; [apply fifo_proved | apply c13_handed_calm_proved; assumption].
 Qed.
 
-Print Assumptions c13_handed_proved.
-Print Assumptions c13_tx_proved.
+Print Assumptions c13_handed_calm_proved.
+Print Assumptions c13_tx_calm_proved.
